@@ -54,7 +54,7 @@ def handleTokens (args : List String) (obs : String) : String :=
 
 def expectedOutcome (k0 : Char) : String :=
   let k := k0.toLower
-  if k == 'g' ∨ k == 'k' ∨ k == 'v' ∨ k == 'y' then "200" else if k == 'e' ∨ k == 'p' then "500" else if k == 'd' then "closed"
+  if k == 'g' ∨ k == 'k' ∨ k == 'v' ∨ k == 'y' ∨ k == 'q' then "200" else if k == 'e' ∨ k == 'p' then "500" else if k == 'd' then "closed"
   else if k == 'm' then "400" else if k == 'x' then "413" else if k == 'r' then "200+200" else "-"
 
 /-- Canonical schedule on the model: clients are accepted in order; when no slot is free the oldest connection
@@ -78,7 +78,7 @@ def handleLimit (args : List String) (obs : String) : String :=
     match nS.toNat? with
     | some n =>
       let ks := kinds.toList
-      let gated := (ks.filter fun k => "gepdEPD".toList.contains k).length
+      let gated := (ks.filter fun k => "gepdqEPD".toList.contains k).length
       let (mx1, s1) := schedule n ks.length (Srv.new n) 0
       let reached := (run false (Srv.new n) (fill (min n gated))).isSome
       let s2 := s1.bind (endAll (n + 1))
